@@ -179,3 +179,63 @@ Proof.
     exact (slices_of_concat (map out_names st) []).
   - unfold gs. rewrite slices_concat; [reflexivity | simpl; lia].
 Qed.
+
+(* ---------- the result has exactly the original type ---------- *)
+Lemma assemble_length ofs lv vals : assemble ofs lv = Ok vals -> length vals = length ofs.
+Proof.
+  revert lv vals; induction ofs as [|o r IH]; intros lv vals H; simpl in H.
+  - match type of H with context [if ?c then _ else _] => destruct c end; inversion H; reflexivity.
+  - destruct lv as [|[f v] lr].
+    + destruct (assemble r []) as [x| |] eqn:A; simpl in H; inversion H; subst.
+      simpl. f_equal. eapply IH; eassumption.
+    + match type of H with context [obind ?c _] => destruct c as [x| |] end; simpl in H; try discriminate.
+      destruct (assemble r lr) as [rest| |] eqn:A; simpl in H; inversion H; subst.
+      simpl. f_equal. eapply IH; eassumption.
+Qed.
+
+Theorem reverse_type_exact_l : forall fuel E ms x v rt rv,
+  reverse fuel E ms x v = Ok (rt, rv) ->
+  rt = xs_ty x /\
+  exists fs nm vals, xs_ty x = TStruct fs nm /\ rv = VStruct vals /\ length vals = length (unpack fs).
+Proof.
+  intros fuel E ms x v rt rv H. destruct fuel as [|n]; simpl in H; [discriminate|].
+  destruct (rev_layers _ _ _ _) as [lv| |]; simpl in H; try discriminate.
+  destruct (xs_ty x) eqn:T; try discriminate.
+  destruct (assemble (unpack fs) lv) as [vals| |] eqn:A; simpl in H; try discriminate.
+  inversion H; subst. split; [reflexivity|].
+  exists fs, name, vals. repeat split; auto. eapply assemble_length; eassumption.
+Qed.
+
+(* ---------- chains: the reverse of a chain is the composition of its stages ---------- *)
+Section Chain.
+Variable E : env.
+Variable subrev : mangler -> xstate -> tval -> outcome tval.
+
+(* one stage at the front of the chain is undone last *)
+Lemma rev_layers_cons m l mls lv :
+  rev_layers E subrev ((m, l) :: mls) lv =
+  (lv' <- rev_layers E subrev mls lv ;; rev_layer E subrev m l lv' 0).
+Proof. reflexivity. Qed.
+
+Fixpoint compose_specs (specs : list (list fvt -> outcome (list fvt))) (lv : list fvt) : outcome (list fvt) :=
+  match specs with
+  | [] => Ok lv
+  | sp :: r => lv' <- compose_specs r lv ;; sp lv'
+  end.
+
+(* if every stage's reverse walk is described by a map S_i (its counterpart
+   map), any chain of them is described by the composition of these maps *)
+Lemma chain_compose mls specs :
+  Forall2 (fun ml sp => forall lv, rev_layer E subrev (fst ml) (snd ml) lv 0 = sp lv) mls specs ->
+  forall lv, rev_layers E subrev mls lv = compose_specs specs lv.
+Proof.
+  induction 1 as [|[m l] sp mls specs H _ IH]; intros lv; simpl; [reflexivity|].
+  rewrite IH. destruct (compose_specs specs lv); simpl; auto.
+Qed.
+End Chain.
+
+(* TranslateType of a chain: stage by stage, each on the output of the previous *)
+Lemma xlate_layers_cons sub m ms lf :
+  xlate_layers sub (m :: ms) lf =
+  (a <- xlate_layer sub m lf ;; b <- xlate_layers sub ms (fst a) ;; Ok (fst b, snd a :: snd b)).
+Proof. reflexivity. Qed.
